@@ -22,7 +22,13 @@ RULE = ("exhaustive enumeration (see exhaustive_subspace) of constructor argumen
         "several rotations / extractions / array extractions with user edits of its attributes in between; (rsess) one "
         "Region2D / Region1D reused for many sub-region calls, also after reg.region is reassigned, and results used as "
         "receivers.  Array values include tiny / huge / non-finite / tied values (compared by value through an "
-        "injective labelling).  A case is non-trivial unless it is a bare constructor call; distinct = distinct JSON input.")
+        "injective labelling).  Phase 3 (gen_kinds): the same operations with every region / shape / pixels argument in other "
+        "REPRESENTATIONS (list, numpy scalars, ndarray, namedtuple, Region object, user subclass, region wrapping a region), "
+        "receivers / inputs that are user subclasses of Region, Layout and Array classes, positional passing, defaults left out, "
+        "mutable arguments fingerprinted around the call; arrays of dtype bool / int8 / uint8 / int64 beyond 2^53 / float16 / "
+        "float32 / complex128; Layout1D histories on one Array1D; rotate_pattern_ci_via_roe_corner_from; binned overscans, "
+        "serial_eper_pixels and every read-only attribute of the regions (before / after reg.region is re-assigned, after "
+        "copy / deepcopy / pickle).  A case is non-trivial unless it is a bare constructor call; distinct = distinct JSON input.")
 EXHAUSTIVE = {
     "quick": "constructors on [-1..3]^2 / [-1..2]^4; sub-regions of every region in a 3x3 frame with pixel ranges in [-1..3]; "
              "1-D extraction on all quadruples in [0..6]; 2-D extraction: all (region, window) pairs in a 3x3 frame; "
@@ -37,6 +43,7 @@ TRUSTED = ["py2v translator (coq/Gen/Gen_layout.v regenerated from autoarray/lay
            "its pinned-glue assumptions: AbstractRegion.__init__/__getitem__ literal text)",
            "correspondence harness harness/c19.py (also runs every generated definition against the Python function)",
            "numpy slicing semantics a[y0:y1, x0:x1] = firstn/skipn (Model.C19.slice2), checked by the KCommute cases"]
+TRUSTED += ["np.s_[a:b] modelled as the pair (a, b) in KProps1 / KProps2; np.mean for the binned overscans (python-side check)"]
 TRUSTED += ["numpy slice assignment a[y0:y1, x0:x1] = v = Model.C19.fill2 (proved equal to the pixel-wise fill_spec), exercised by the ahist cases",
             "the harness's own bookkeeping of the tracked layout / region state in lsess / rsess (plain tuples)"]
 ASSUMPTIONS = ["array contents are arbitrary (theorems are polymorphic in the element type); correspondence uses distinct integers",
@@ -117,6 +124,7 @@ def gen_inputs(tier, rng):
         ey0 = rng.randint(0, h - 1); ey1 = rng.randint(ey0 + 1, h); ex0 = rng.randint(0, w - 1); ex1 = rng.randint(ex0 + 1, w)
         yield {"op": "extract", "o": [y0, y1, x0, x1], "e": [ey0, ey1, ex0, ex1], "via": rng.choice(slots), "shape": [h, w]}
     yield from gen_histories(tier, rng)
+    yield from gen_kinds(tier, rng)
 
 def reg_out(x):
     """canonical form of a result that is a region object / tuple"""
@@ -125,34 +133,45 @@ def reg_out(x):
     return ("ok", None if v is None else tuple(int(t) for t in (v.region if hasattr(v, "region") else v)))
 
 REGION_OPS = ("front1", "trail1", "parfront", "serfront", "partrail", "sertrail", "parfull", "serroe")
-def region_op(obj, self_t, inp):
-    """one sub-region call on the GIVEN Region object (tracked tuple self_t) -> (canonical result, Coq case)"""
+def region_op(obj, self_t, inp, aa=None, bad=None):
+    """one sub-region call on the GIVEN Region object (tracked tuple self_t) -> (canonical result, Coq case).
+    inp may ask for another representation of the arguments ("pk" pixels, "shk" shape_2d), positional passing ("pos"),
+    or leaving out an argument that equals its default ("dflt"); mutable arguments are fingerprinted around the call."""
     op = inp["op"]
     t2 = lambda p: None if p is None else tuple(p)
+    P = mkkind(aa, inp.get("p"), inp.get("pk"), 1) if aa is not None else t2(inp.get("p"))
+    SH = (mkkind(aa, inp.get("sh"), inp.get("shk"), 1) if aa is not None else t2(inp.get("sh"))) if "sh" in inp else None
+    fp = (fingerprint(P), fingerprint(SH))
+    pos = bool(inp.get("pos")); dflt = bool(inp.get("dflt")) and inp.get("p") is not None and list(inp["p"]) == [0, 1]
+    def call(f, *names_vals):
+        """names_vals: (name, value) in the signature's order"""
+        if pos: return call_res(f, *[v for _, v in names_vals])
+        return call_res(f, **{k: v for k, v in names_vals if not (dflt and k == "pixels")})
     if op == "front1":
-        out = reg_out(call_res(obj.front_region_from, pixels=t2(inp["p"]), pixels_from_end=inp["e"]))
+        out = reg_out(call(obj.front_region_from, ("pixels", P), ("pixels_from_end", inp["e"])))
         coq = f"KFront1 {creg(self_t)} {copt(inp['p'], creg)} {copt(inp['e'], cz)} {cres(out, creg)}"
     elif op == "trail1":
-        out = reg_out(call_res(obj.trailing_region_from, pixels=t2(inp["p"])))
+        out = reg_out(call(obj.trailing_region_from, ("pixels", P)) if not dflt else call_res(obj.trailing_region_from, pixels=P))
         coq = f"KTrail1 {creg(self_t)} {creg(inp['p'])} {cres(out, creg)}"
     elif op in ("parfront", "serfront"):
         f = obj.parallel_front_region_from if op == "parfront" else obj.serial_front_region_from
-        out = reg_out(call_res(f, pixels=t2(inp["p"]), pixels_from_end=inp["e"]))
+        out = reg_out(call_res(f, P, inp["e"]) if pos else call_res(f, pixels=P, pixels_from_end=inp["e"]))
         k = "KParFront" if op == "parfront" else "KSerFront"
         coq = f"{k} {creg(self_t)} {copt(inp['p'], creg)} {copt(inp['e'], cz)} {cres(out, creg)}"
     elif op in ("partrail", "sertrail"):
         f = obj.parallel_trailing_region_from if op == "partrail" else obj.serial_trailing_region_from
-        out = reg_out(call_res(f, pixels=t2(inp["p"])))
+        out = reg_out(call(f, ("pixels", P)))
         k = "KParTrail" if op == "partrail" else "KSerTrail"
         coq = f"{k} {creg(self_t)} {creg(inp['p'])} {cres(out, creg)}"
     elif op == "parfull":
-        out = reg_out(call_res(obj.parallel_full_region_from, shape_2d=tuple(inp["sh"])))
+        out = reg_out(call(obj.parallel_full_region_from, ("shape_2d", SH)))
         coq = f"KParFull {creg(self_t)} {creg(inp['sh'])} {cres(out, creg)}"
     elif op == "serroe":
-        out = reg_out(call_res(obj.serial_towards_roe_full_region_from, shape_2d=tuple(inp["sh"]), pixels=t2(inp["p"])))
+        out = reg_out(call(obj.serial_towards_roe_full_region_from, ("shape_2d", SH), ("pixels", P)))
         coq = f"KSerRoe {creg(self_t)} {creg(inp['sh'])} {creg(inp['p'])} {cres(out, creg)}"
     else:
         raise ValueError(op)
+    if bad is not None and fp != (fingerprint(P), fingerprint(SH)): bad.append(f"an argument of {op} was modified by the call")
     return out, coq
 
 def raw_call(obj, d):
@@ -177,8 +196,12 @@ def run_case(inp):
         out = reg_out(call_res(aa.Region2D, tuple(inp["r"])))
         coq = f"KInit2 {creg(inp['r'])} {cres(out, creg)}"
     elif op in REGION_OPS:
-        cls = aa.Region1D if op in ("front1", "trail1") else aa.Region2D
-        out, coq = region_op(cls(tuple(inp["s"])), inp["s"], inp)
+        dim = 1 if op in ("front1", "trail1") else 2
+        recv = mkkind(aa, inp["s"], inp.get("selfk") or "reg", dim)          # the receiver: Region / subclass / nested ...
+        bad = []
+        out, coq = region_op(recv, inp["s"], inp, aa, bad)
+        if regt(recv) != tuple(inp["s"]): bad.append("the receiver changed")
+        if bad: return result([coq], out, bad, op)
     elif op == "x0x1":
         a = inp["a"]
         r = layout_util.x0x1_after_extraction(*a)
@@ -186,23 +209,39 @@ def run_case(inp):
         coq = f"KX0X1 {cz(a[0])} {cz(a[1])} {cz(a[2])} {cz(a[3])} ({copt(out[0], cz)}, {copt(out[1], cz)})"
     elif op == "extract":
         o, e, via = npi(t2(inp["o"]), inp.get("npint")), npi(tuple(inp["e"]), inp.get("npint")), inp["via"]
+        if inp.get("ok"): o = mkkind(aa, inp["o"], inp["ok"])
+        if inp.get("ek"): e = mkkind(aa, inp["e"], inp["ek"])
+        fp = (fingerprint(o), fingerprint(e))
         if via == "util":
-            out = reg_out(call_res(layout_util.region_after_extraction, original_region=o, extraction_region=e))
+            f = layout_util.region_after_extraction
+            out = reg_out(call_res(f, o, e) if inp.get("pos") else call_res(f, original_region=o, extraction_region=e))
         else:
+            L2 = subclasses(aa)["Layout2D"] if inp.get("layk") == "sub" else aa.Layout2D
             def f():
-                lay = aa.Layout2D(shape_2d=tuple(inp["shape"]), **{via: o})
-                return getattr(lay.layout_extracted_from(extraction_region=e), via)
+                lay = L2(shape_2d=tuple(inp["shape"]), **{via: o})
+                return getattr(lay.layout_extracted_from(e) if inp.get("pos") else lay.layout_extracted_from(extraction_region=e), via)
             out = reg_out(call_res(f))
-        coq = f"KExtract {copt(o, creg)} {creg(e)} {cres(out, lambda v: copt(v, creg))}"
+        coq = f"KExtract {copt(inp['o'], creg)} {creg(inp['e'])} {cres(out, lambda v: copt(v, creg))}"
+        if fp != (fingerprint(o), fingerprint(e)):
+            return result([coq], out, ["an argument of the extraction was modified by the call"], op)
     elif op == "rotregion":
         r, s, c, via = npi(t2(inp["r"]), inp.get("npint")), npi(tuple(inp["s"]), inp.get("npint")), tuple(inp["c"]), inp["via"]
+        if inp.get("rk"): r = mkkind(aa, inp["r"], inp["rk"])
+        if inp.get("sk"): s = mkkind(aa, inp["s"], inp["sk"], 1)
+        fp = (fingerprint(r), fingerprint(s)); pos = bool(inp.get("pos"))
+        L2 = subclasses(aa)["Layout2D"] if inp.get("layk") == "sub" else aa.Layout2D
         if via == "util" or r is None:
-            out = reg_out(call_res(layout_util.rotate_region_via_roe_corner_from, region=r, shape_native=s, roe_corner=c))
+            f = layout_util.rotate_region_via_roe_corner_from
+            out = reg_out(call_res(f, r, s, c) if pos else call_res(f, region=r, shape_native=s, roe_corner=c))
         elif via == "rotated_from_roe_corner":
-            out = reg_out(call_res(lambda: aa.Layout2D.rotated_from_roe_corner(roe_corner=c, shape_native=s, serial_overscan=r).serial_overscan))
+            out = reg_out(call_res(lambda: (L2.rotated_from_roe_corner(c, s, None, None, r) if pos else
+                                            L2.rotated_from_roe_corner(roe_corner=c, shape_native=s, serial_overscan=r)).serial_overscan))
         else:
-            out = reg_out(call_res(lambda: aa.Layout2D(shape_2d=s, serial_prescan=r).new_rotated_from(roe_corner=c).serial_prescan))
-        coq = f"KRotRegion {copt(r, creg)} {creg(s)} {creg(c)} {cres(out, lambda v: copt(v, creg))}"
+            out = reg_out(call_res(lambda: (L2(s, (0, 1), None, r).new_rotated_from(c) if pos else
+                                            L2(shape_2d=s, serial_prescan=r).new_rotated_from(roe_corner=c)).serial_prescan))
+        coq = f"KRotRegion {copt(inp['r'], creg)} {creg(inp['s'])} {creg(c)} {cres(out, lambda v: copt(v, creg))}"
+        if fp != (fingerprint(r), fingerprint(s)):
+            return result([coq], out, ["an argument of the rotation was modified by the call"], op)
     elif op == "rotarray":
         m, c = np.array(inp["m"], dtype=float), tuple(inp["c"])
         if inp["via"] == "util":
@@ -237,6 +276,8 @@ def run_case(inp):
     elif op == "ahist": return run_ahist(aa, inp)
     elif op == "lsess": return run_lsess(aa, inp)
     elif op == "rsess": return run_rsess(aa, inp)
+    elif op == "l1sess": return run_l1sess(aa, inp)
+    elif op == "pattern": return run_pattern(aa, inp)
     else:
         raise ValueError(op)
     return {"coq": "(" + coq + ")", "out": out, "py_ok": None, "nontrivial": nontrivial, "kind": op}
@@ -254,17 +295,34 @@ def enc(x):
     x = float(x)
     if x == x and abs(x) < 1e15 and x == int(x) and not (x == 0 and math.copysign(1, x) < 0): return int(x)
     return repr(x)
-def dec(x): return float(x)
+def dec(x):
+    if isinstance(x, str) and x.endswith("j"): return complex(x)
+    return float(x)
+DTYPES = {"int": np.int64, "bool": np.bool_, "float32": np.float32, "float16": np.float16, "complex": np.complex128,
+          "int8": np.int8, "uint8": np.uint8, "bigint": np.int64, None: np.float64}
+def build_vals(m, dtype=None):
+    """the contents of a case as an ndarray of the requested dtype (exact for integers)"""
+    dt = DTYPES[dtype]
+    if dtype in ("int", "bigint", "int8", "uint8", "bool"): return np.array([[int(x) for x in row] for row in m]).astype(dt)
+    return np.array([[dec(x) for x in row] for row in m], dtype=dt)
 
 class Lab:
     """injective labelling value -> Z (the theorems are polymorphic in the element type): integers are themselves,
     every other value (fractions, tiny, huge, nan, +-inf) gets its own label; equal values share a label"""
     def __init__(self): self.d = {}
     def __call__(self, x):
+        if isinstance(x, (bool, np.bool_, int, np.integer)): return int(x)       # exact, also beyond 2^53
+        if isinstance(x, (complex, np.complexfloating)):
+            x = complex(x)
+            if x.imag == 0 and math.copysign(1, x.imag) > 0: x = x.real
+            else:
+                k = "c" + repr(x)
+                if k not in self.d: self.d[k] = 10 ** 30 + len(self.d)
+                return self.d[k]
         x = float(x)
         if x == x and abs(x) < 1e15 and x == int(x): return int(x)
         k = "nan" if x != x else repr(x)
-        if k not in self.d: self.d[k] = 10 ** 15 + len(self.d)
+        if k not in self.d: self.d[k] = 10 ** 30 + len(self.d)
         return self.d[k]
     def arr(self, a):
         a = np.asarray(a)
@@ -295,9 +353,64 @@ def edit_in_place(a, r, v):
             for x in range(x0, x1): a[y * w + x] = v
 def inside(shape, r):
     return 0 <= r[0] < r[1] <= shape[0] and 0 <= r[2] < r[3] <= shape[1]
+def same_header(h, g):
+    """the header handed on with an extracted array: the same object or an equal copy (None stays None)"""
+    if h is g: return True
+    if h is None or g is None: return False
+    return type(h) is type(g) and tuple(h.original_roe_corner) == tuple(g.original_roe_corner)
 def same(a, b):
     a, b = np.asarray(a), np.asarray(b)
     return a.shape == b.shape and bool(np.array_equal(a, b, equal_nan=True))
+
+_SUB = {}
+def subclasses(aa):
+    """trivial user subclasses of the accepted classes (dispatch must use isinstance, not type(x) is ...)"""
+    if not _SUB:
+        import collections
+        class UserRegion2D(aa.Region2D): pass
+        class UserRegion1D(aa.Region1D): pass
+        class UserLayout2D(aa.Layout2D): pass
+        class UserLayout1D(aa.Layout1D): pass
+        class UserArray2D(aa.Array2D): pass
+        class UserArray1D(aa.Array1D): pass
+        class UserNd(np.ndarray): pass
+        _SUB.update({"Region2D": UserRegion2D, "Region1D": UserRegion1D, "Layout2D": UserLayout2D, "Layout1D": UserLayout1D,
+                     "Array2D": UserArray2D, "Array1D": UserArray1D, "ndarray": UserNd,
+                     "nt4": collections.namedtuple("NT4", "y0 y1 x0 x1"), "nt2": collections.namedtuple("NT2", "a b")})
+    return _SUB
+
+def mkkind(aa, t, kind, dim=2):
+    """the coordinates t handed over in another REPRESENTATION (same meaning): tuple / list / numpy scalars / ndarray /
+    tuple subclass / Region object / subclass instance / Region wrapping a Region / Region holding a list"""
+    if t is None: return None
+    t = tuple(int(x) for x in t)
+    if kind in (None, "tuple"): return t
+    if kind == "list": return list(t)
+    if kind == "np64": return tuple(np.int64(x) for x in t)
+    if kind == "np32": return tuple(np.int32(x) for x in t)
+    if kind == "arr": return np.array(t, dtype=np.int64)
+    if kind == "arr32": return np.array(t, dtype=np.int32)
+    if kind == "nt": return subclasses(aa)["nt4" if len(t) == 4 else "nt2"](*t)
+    R = aa.Region2D if dim == 2 else aa.Region1D
+    S = subclasses(aa)["Region2D" if dim == 2 else "Region1D"]
+    try:
+        if kind == "reg": return R(t)
+        if kind == "sub": return S(t)
+        if kind == "nested": return R(R(t))
+        if kind == "subnested": return S(R(t))
+        if kind == "reglist": return R(list(t))
+        if kind == "regarr": return R(np.array(t, dtype=np.int64))
+    except aa.exc.RegionException:
+        return t                          # not a valid region: no Region object exists for it
+    raise ValueError(kind)
+TKINDS = ["tuple", "list", "np64", "np32", "arr", "arr32", "nt"]                      # any coordinate tuple
+RKINDS = TKINDS + ["reg", "sub", "nested", "subnested", "reglist", "regarr"]          # a region
+def fingerprint(x):
+    """value + type of a (possibly mutable) argument, to be compared before / after a call"""
+    if x is None: return None
+    if hasattr(x, "region"): return (type(x).__name__, fingerprint(x.region))
+    if isinstance(x, np.ndarray): return (type(x).__name__, str(x.dtype), tuple(int(v) for v in x))
+    return (type(x).__name__, tuple(int(v) for v in x))
 
 class Pool:
     """Region2D objects are REUSED: one object per distinct tuple for the whole history"""
@@ -332,7 +445,7 @@ def derive(aa, obj, how):
         if how == "view": return obj[:]
         if how == "fortran": return np.asfortranarray(obj)
         if how == "window":           # a window of a bigger array (non-contiguous strides)
-            big = np.full((obj.shape[0] + 2, obj.shape[1] + 3), -77.0); big[1:-1, 2:-1] = obj
+            big = np.full((obj.shape[0] + 2, obj.shape[1] + 3), 1).astype(obj.dtype); big[1:-1, 2:-1] = obj
             return big[1:-1, 2:-1]
         if how == "tt": return obj.T.copy().T
         return obj
@@ -353,31 +466,35 @@ def derive(aa, obj, how):
 def run_ahist(aa, inp):
     from autoarray.layout import layout_util
     lab = Lab(); pool = Pool(aa); bad = []
-    vals = np.array([[dec(x) for x in row] for row in inp["m"]], dtype=float)
+    dtype = inp.get("dtype"); sub = bool(inp.get("sub"))
+    vals = build_vals(inp["m"], dtype)
     c = tuple(inp["c"]); kind = inp["kind"]
+    A2 = subclasses(aa)["Array2D"] if sub else aa.Array2D
+    ps = tuple(inp["ps"]) if inp.get("ps") else 1.0          # pixel scales (y, x) varied independently
     if kind == "nd":
         obj = vals.copy()
-        if inp.get("dtype") == "int": obj = obj.astype(np.int64)
+        if sub: obj = obj.view(subclasses(aa)["ndarray"])
     else:
         mk = inp.get("mask")
-        mask = (aa.Mask2D(mask=np.array(mk, dtype=bool), pixel_scales=1.0) if mk is not None
-                else aa.Mask2D.all_false(shape_native=vals.shape, pixel_scales=1.0))
+        mask = (aa.Mask2D(mask=np.array(mk, dtype=bool), pixel_scales=ps) if mk is not None
+                else aa.Mask2D.all_false(shape_native=vals.shape, pixel_scales=ps))
         if kind == "array2d":
-            obj = aa.Array2D(values=vals.copy(), mask=mask, header=aa.Header(original_roe_corner=c), store_native=True)
+            obj = A2(values=vals.copy(), mask=mask, header=aa.Header(original_roe_corner=c), store_native=True)
         elif kind == "no_mask.native":     # derived: stored slim, then mapped to native
-            obj = aa.Array2D.no_mask(values=vals.copy(), pixel_scales=1.0, header=aa.Header(original_roe_corner=c)).native
+            obj = A2.no_mask(values=vals.copy(), pixel_scales=ps, header=aa.Header(original_roe_corner=c)).native
         else:                              # "sum": result of arithmetic on two arrays
             h = aa.Header(original_roe_corner=c)
-            a1 = aa.Array2D(values=vals - 1.0, mask=mask, header=h, store_native=True)
-            obj = a1 + aa.Array2D(values=np.ones(vals.shape), mask=mask, header=h, store_native=True)
-    m0 = np.array(obj, dtype=float)          # the contents the history starts from (construction is not C19's business)
-    lay = aa.Layout2D(shape_2d=tuple(vals.shape), original_roe_corner=c)     # ONE layout object, reused
+            a1 = A2(values=vals - 1.0, mask=mask, header=h, store_native=True)
+            obj = a1 + A2(values=np.ones(vals.shape), mask=mask, header=h, store_native=True)
+    m0 = np.array(obj)                       # the contents the history starts from (construction is not C19's business)
+    L2 = subclasses(aa)["Layout2D"] if sub else aa.Layout2D
+    lay = L2(shape_2d=tuple(vals.shape), original_roe_corner=c)     # ONE layout object, reused
     last = None; kept = []; outs = []; steps = []
     def observe(o):
         nonlocal last
         last = o
         if o is None: outs.append(None); return
-        a = lab.arr(plain(o)); outs.append(a); kept.append((o, np.array(plain(o), dtype=float)))
+        a = lab.arr(plain(o)); outs.append(a); kept.append((o, np.array(plain(o))))
     for st in inp["steps"]:
         k = st[0]
         if k == "read":
@@ -393,11 +510,15 @@ def run_ahist(aa, inp):
                     lay.parallel_overscan = pool(r); o = lay.extract_parallel_overscan_array_2d_from(array=obj)
                 else:
                     lay.serial_overscan = pool(r); o = lay.extract_serial_overscan_array_from(array=obj)
+                if not same_header(o.header, obj.header): bad.append("the extracted array does not carry the header of the array")
+                if tuple(o.pixel_scales) != tuple(obj.pixel_scales):
+                    bad.append(f"the extracted array has pixel scales {o.pixel_scales}, the array {obj.pixel_scales}")
             else:
                 o = np.array(np.asarray(obj)[pool(r).slice])     # a copy: a numpy view would legitimately alias
             observe(o)
         elif k == "write":
             r, v, via = tuple(st[1]), dec(st[2]), st[3]
+            if np.asarray(obj).dtype.kind in "iub": v = int(v)     # an integer array is written with integers (exact beyond 2^53)
             if via == "region": obj[pool(r).slice] = v
             elif via == "where" and kind != "nd":
                 key = np.zeros(obj.shape, dtype=bool); key[r[0]:r[1], r[2]:r[3]] = True
@@ -433,13 +554,33 @@ def run_lsess(aa, inp):
     from autoarray.layout import layout_util
     lab = Lab(); pool = Pool(aa); bad = []; coqs = []; out = []
     shape = tuple(inp["shape"]); st = [shape, tuple(inp["c"])] + [None if r is None else tuple(r) for r in inp["regions"]]
-    mk = lambda r, i: None if r is None else (pool(r) if (i + len(inp["steps"])) % 2 else tuple(r))
-    lay = aa.Layout2D(shape_2d=shape, original_roe_corner=st[1], parallel_overscan=mk(st[2], 0),
-                      serial_prescan=mk(st[3], 1), serial_overscan=mk(st[4], 2))     # ONE layout object
-    vals = np.array([[dec(x) for x in row] for row in inp["m"]], dtype=float)         # harness's private copy
+    slotk = inp.get("slotk") or [None, None, None]            # representation of the regions handed to the constructor
+    def mk(r, i):
+        if r is None: return None
+        if slotk[i]: return mkkind(aa, r, slotk[i])
+        return pool(r) if (i + len(inp["steps"])) % 2 else tuple(r)
+    # a slot given as a list / ndarray stays one (the constructor converts tuples only): it can be rotated, not sliced
+    sliceable = [slotk[i] not in ("list", "arr", "arr32") for i in range(3)]
+    L2 = subclasses(aa)["Layout2D"] if inp.get("layk") == "sub" else aa.Layout2D
+    shape_arg = mkkind(aa, shape, inp.get("shk"), 1)
+    if inp.get("pos"):
+        lay = L2(shape_arg, st[1], mk(st[2], 0), mk(st[3], 1), mk(st[4], 2))
+    elif st[1] == (1, 0) and inp.get("dflt"):                 # the default corner
+        lay = L2(shape_2d=shape_arg, parallel_overscan=mk(st[2], 0), serial_prescan=mk(st[3], 1), serial_overscan=mk(st[4], 2))
+    else:
+        lay = L2(shape_2d=shape_arg, original_roe_corner=st[1], parallel_overscan=mk(st[2], 0),
+                 serial_prescan=mk(st[3], 1), serial_overscan=mk(st[4], 2))     # ONE layout object
+    for i in range(3):                                          # tuples (and tuple subclasses) become Region2D objects
+        o = getattr(lay, SLOTS[i])
+        if st[2 + i] is not None and sliceable[i] and not isinstance(o, aa.Region2D):
+            bad.append(f"Layout2D.{SLOTS[i]} is a {type(o).__name__}, not a Region2D")
+    vals = build_vals(inp["m"], inp.get("dtype"))                                      # harness's private copy
     nd = vals.copy()
-    arr = aa.Array2D(values=vals.copy(), mask=aa.Mask2D.all_false(shape_native=vals.shape, pixel_scales=1.0),
-                     store_native=bool(inp.get("store_native", True)))
+    A2 = subclasses(aa)["Array2D"] if inp.get("arrk") == "sub" else aa.Array2D
+    ps = tuple(inp["ps"]) if inp.get("ps") else 1.0
+    hdr = aa.Header(original_roe_corner=st[1]) if inp.get("hdr") else None
+    arr = A2(values=vals.copy(), mask=aa.Mask2D.all_false(shape_native=vals.shape, pixel_scales=ps), header=hdr,
+             store_native=bool(inp.get("store_native", True)))
     last = None
     def check_state(what):
         if lay_state(lay) != tuple(st): bad.append(f"the Layout2D changed during {what}: {lay_state(lay)} != {tuple(st)}")
@@ -456,28 +597,50 @@ def run_lsess(aa, inp):
             oo = lay_out(o); out.append(oo)
             coqs.append(f"KLayRot {clay(st)} {creg(c)} {cres(oo, clay)}")
             check_state(k)
-            if k == "into_rot" and o[0] == "ok": lay = o[1]; st = list(oo[1])
+            if k == "into_rot" and o[0] == "ok": lay = o[1]; st = list(oo[1]); sliceable = [True] * 3
         elif k in ("ext", "into_ext"):
             e = tuple(sp[1])
             o = call_res(lay.layout_extracted_from, extraction_region=e if len(sp) < 3 else pool(e))
             oo = lay_out(o); out.append(oo)
             coqs.append(f"KLayExt {clay(st)} {creg(e)} {cres(oo, clay)}")
             check_state(k)
-            if k == "into_ext" and o[0] == "ok": lay = o[1]; st = list(oo[1])
+            if k == "into_ext" and o[0] == "ok": lay = o[1]; st = list(oo[1]); sliceable = [True] * 3
         elif k == "set":
             i = int(sp[1]); r = None if sp[2] is None else tuple(sp[2])
-            setattr(lay, SLOTS[i], None if r is None else pool(r)); st[2 + i] = r
+            setattr(lay, SLOTS[i], None if r is None else pool(r)); st[2 + i] = r; sliceable[i] = True
+        elif k == "derive":                             # the layout replaced by a copy of itself
+            lay = (copy.deepcopy if sp[1] == "deepcopy" else copy.copy)(lay)
+            if sp[1] == "deepcopy": pool.d = {}; pool = Pool(aa)     # the copy holds copies of the pooled regions
         elif k == "shape":
             lay.shape_2d = tuple(sp[1]); st[0] = tuple(sp[1])
         elif k == "corner":
             lay.original_roe_corner = tuple(sp[1]); st[1] = tuple(sp[1])
         elif k == "slice":
             i = int(sp[1]); r = st[2 + i]
-            if i == 1 or r is None or not inside(vals.shape, r): continue
+            if i == 1 or r is None or not inside(vals.shape, r) or not sliceable[i]: continue
             f = lay.extract_parallel_overscan_array_2d_from if i == 0 else lay.extract_serial_overscan_array_from
-            last = f(array=arr)
+            last = f(arr) if inp.get("pos") else f(array=arr)
             o = lab.arr(plain(last)); out.append(o)
             coqs.append(f"KSlice {carr(lab.arr(vals))} {creg(r)} {carr(o)}")
+            if not same_header(last.header, arr.header): bad.append("the extracted array does not carry the header of the array")
+            if tuple(last.pixel_scales) != tuple(arr.pixel_scales):
+                bad.append(f"the extracted array has pixel scales {last.pixel_scales}, the array {arr.pixel_scales}")
+            check_state(k)
+        elif k == "bin":                                   # Layout2D.*_binned_array_1d_from = mean of the extracted region
+            i = int(sp[1]); r = st[2 + i]
+            if i == 1 or r is None or not inside(vals.shape, r) or not sliceable[i]: continue
+            f = lay.parallel_overscan_binned_array_1d_from if i == 0 else lay.serial_overscan_binned_array_1d_from
+            b = np.asarray(f(array=arr), dtype=float)
+            want = np.mean(vals[r[0]:r[1], r[2]:r[3]].astype(float), axis=1 if i == 0 else 0)
+            out.append([float(x) for x in b])
+            if b.shape != want.shape or not np.allclose(b, want, rtol=1e-12, atol=0.0, equal_nan=True):
+                bad.append(f"binned {SLOTS[i]} {b.tolist()} is not the mean {want.tolist()} of the region's current content")
+            check_state(k)
+        elif k == "eper":
+            r = st[4]
+            if r is None: continue
+            n = int(lay.serial_eper_pixels); out.append(n)
+            coqs.append(f"KProps2 {creg(r)} (0, 0) {clist([cz(x) for x in props2_want(r, (0, 0))[:5]] + [cz(n)] + [cz(x) for x in props2_want(r, (0, 0))[6:]])}")
             check_state(k)
         elif k == "orient":
             src = nd if sp[1] == "nd" else (arr if arr.ndim == 2 else arr.native)
@@ -499,7 +662,8 @@ def run_lsess(aa, inp):
         elif k == "regop":
             i = int(sp[1]); obj = getattr(lay, SLOTS[i])
             if obj is None: continue
-            o, cq_ = region_op(obj, st[2 + i], sp[2]); out.append(o); coqs.append(cq_)
+            if not sliceable[i]: continue                    # a slot given as a list stays a list: no sub-region methods
+            o, cq_ = region_op(obj, st[2 + i], sp[2], aa, bad); out.append(o); coqs.append(cq_)
             check_state(k)
         else: raise ValueError(k)
         # the arrays handed to the layout are still what the harness thinks they are
@@ -514,15 +678,21 @@ def run_lsess(aa, inp):
 def run_rsess(aa, inp):
     lab = Lab(); bad = []; coqs = []; out = []
     dim = inp["dim"]; cur = tuple(inp["r"])
-    reg = (aa.Region1D if dim == 1 else aa.Region2D)(npi(cur, inp.get("npint")))          # ONE region object
+    if inp.get("selfk"): reg = mkkind(aa, cur, inp["selfk"], dim)
+    else: reg = (aa.Region1D if dim == 1 else aa.Region2D)(npi(cur, inp.get("npint")))          # ONE region object
     vals = np.array([[dec(x) for x in row] for row in inp["m"]], dtype=float) if inp.get("m") else None
     for sp in inp["steps"]:
         k = sp[0]
         if k in ("call", "into"):
-            o, cq_ = region_op(reg, cur, sp[1]); out.append(o); coqs.append(cq_)
+            o, cq_ = region_op(reg, cur, sp[1], aa, bad); out.append(o); coqs.append(cq_)
             if regt(reg) != cur: bad.append(f"the region changed during {sp[1]['op']}: {regt(reg)} != {cur}")
             if k == "into" and o[0] == "ok":        # the RESULT becomes the receiver of the following calls
                 reg = raw_call(reg, sp[1]); cur = tuple(o[1])
+        elif k == "derive":                           # the object replaced by a copy of itself
+            import pickle
+            reg = {"copy": copy.copy, "deepcopy": copy.deepcopy, "pickle": lambda x: pickle.loads(pickle.dumps(x)),
+                   "rebuild": lambda x: type(x)(x.region), "wrap": lambda x: type(x)(x)}[
+                       "deepcopy" if sp[1] == "pickle" and inp.get("selfk") in ("sub", "subnested") else sp[1]](reg)   # local classes do not pickle
         elif k == "setregion":
             cur = tuple(sp[1]); reg.region = npi(cur, inp.get("npint"))
         elif k == "slice":                            # reg.slice on an array
@@ -533,9 +703,128 @@ def run_rsess(aa, inp):
         elif k == "state":
             o = ("ok", regt(reg)); out.append(o)
             coqs.append((f"KInit1 {creg(cur)} {cres(o, creg)}" if dim == 1 else f"KInit2 {creg(cur)} {cres(o, creg)}"))
+        elif k == "props":                            # every read-only attribute of the region, for its CURRENT coordinates
+            o, cq_ = region_props(aa, reg, cur, dim, tuple(sp[1]) if len(sp) > 1 else (0, 1), bad); out.append(o); coqs.append(cq_)
         else: raise ValueError(k)
     o = ("ok", regt(reg)); coqs.append((f"KInit1 {creg(cur)} {cres(o, creg)}" if dim == 1 else f"KInit2 {creg(cur)} {cres(o, creg)}"))
     return result(coqs, out, bad, "rsess")
+
+def sl2(x): return [int(x.start), int(x.stop)] + ([] if x.step is None else [int(x.step)])
+def props2_want(r, p):
+    y0, y1, x0, x1 = r
+    return [y0, y1, x0, x1, y1 - y0, x1 - x0, y1 - y0, x1 - x0, x0 + p[0], x0 + p[1], y0, y1, x0, x1, y0, y1, x0, x1]
+def region_props(aa, reg, cur, dim, p, bad):
+    """the read-only attributes of a Region object as a list of integers (slices as start, stop) -> (list, Coq case);
+    __eq__ / __repr__ are checked here (python objects)"""
+    if dim == 2:
+        rng_ = reg.serial_x_front_range_from(pixels=p)
+        o = [reg.y0, reg.y1, reg.x0, reg.x1, reg.total_rows, reg.total_columns, reg.shape[0], reg.shape[1], rng_[0], rng_[1]]
+        o += sl2(reg.y_slice) + sl2(reg.x_slice) + sl2(reg.slice[0]) + sl2(reg.slice[1])
+        if len(reg.slice) != 2 or len(reg.shape) != 2 or len(rng_) != 2: bad.append("Region2D.slice / shape / range: wrong length")
+        coq = f"KProps2 {creg(cur)} {creg(p)} {clist([cz(int(x)) for x in o])}"
+        other = (cur[0], cur[1], cur[2], cur[3] + 1); name = "Region2D"
+    else:
+        o = [reg.x0, reg.x1, reg.total_pixels] + sl2(reg.slice) + sl2(reg.x_slice)
+        coq = f"KProps1 {creg(cur)} {clist([cz(int(x)) for x in o])}"
+        other = (cur[0], cur[1] + 1); name = "Region1D"
+    o = [int(x) for x in o]
+    if not isinstance(reg.region, np.ndarray):          # region == ndarray is elementwise (not a truth value)
+        kind = type(reg.region)
+        same_t = kind(cur) if kind in (tuple, list) else tuple(cur)
+        if kind in (tuple, list):
+            if not (reg == same_t): bad.append(f"{name}{cur} == {same_t!r} is False")
+            if reg == kind(other): bad.append(f"{name}{cur} == {kind(other)!r} is True")
+        if not (reg == reg): bad.append(f"{name}{cur} is not equal to itself")
+    want_repr = "<" + name + " " + " ".join(str(int(x)) for x in cur) + ">"
+    if not hasattr(reg.region, "region") and not isinstance(reg.region, np.ndarray) and repr(reg) != want_repr:
+        bad.append(f"repr is {reg!r}, expected {want_repr}")
+    return o, coq
+
+# ----------------------------------------------------------------------------------------------- l1sess
+def run_l1sess(aa, inp):
+    """ONE Layout1D reused on ONE Array1D: extract_overscan_array_1d_from after in-place writes, after the user re-assigns
+    layout.overscan, after the array is replaced by a derived one; sub-region calls on the Region1D objects it holds"""
+    lab = Lab(); bad = []; coqs = []; out = []
+    sub = bool(inp.get("sub"))
+    vals = build_vals([inp["m"]], inp.get("dtype"))[0]
+    n = len(vals)
+    A1 = subclasses(aa)["Array1D"] if sub else aa.Array1D
+    L1 = subclasses(aa)["Layout1D"] if sub else aa.Layout1D
+    hdr = aa.Header(original_roe_corner=(1, 0)) if inp.get("hdr") else None
+    arr = A1.no_mask(values=vals.copy(), pixel_scales=float(inp.get("ps") or 1.0), header=hdr)
+    cur = {"prescan": None if inp["pre"] is None else tuple(inp["pre"]), "overscan": tuple(inp["ov"])}
+    pre = mkkind(aa, inp["pre"], inp.get("prek"), 1); ov = mkkind(aa, inp["ov"], inp.get("ovk"), 1)
+    lay = L1((n,), pre, ov) if inp.get("pos") else L1(shape_1d=(n,), prescan=pre, overscan=ov)
+    for w in ("prescan", "overscan"):
+        o = getattr(lay, w)
+        if cur[w] is not None and not isinstance(o, aa.Region1D): bad.append(f"Layout1D.{w} is a {type(o).__name__}, not a Region1D")
+    last = None
+    def state_ok(what):
+        got = {w: (None if getattr(lay, w) is None else regt(getattr(lay, w))) for w in cur}
+        if got != cur or tuple(lay.shape_1d) != (n,): bad.append(f"the Layout1D changed during {what}: {got} != {cur}")
+        if not same(np.asarray(arr.native), vals): bad.append(f"the input array changed during {what}")
+    for sp in inp["steps"]:
+        k = sp[0]
+        if k == "ext":
+            a, b = cur["overscan"]
+            last = lay.extract_overscan_array_1d_from(arr) if inp.get("pos") else lay.extract_overscan_array_1d_from(array=arr)
+            o = [lab(x) for x in np.asarray(last)]; out.append(o)
+            coqs.append(f"KSlice {carr([[lab(x) for x in vals]])} {creg((0, 1, a, b))} {carr([o])}")
+            if np.asarray(last).ndim != 1: bad.append("the extracted array is not 1D")
+            if not same_header(last.header, arr.header): bad.append("the extracted array does not carry the header of the array")
+            if tuple(last.pixel_scales) != tuple(arr.pixel_scales): bad.append("the extracted array has other pixel scales")
+            state_ok(k)
+        elif k == "write":
+            a, b, v = int(sp[1]), int(sp[2]), dec(sp[3]); vals[a:b] = v; arr[a:b] = v
+        elif k == "edit":
+            if last is not None and int(sp[1]) < len(last): last[int(sp[1]):int(sp[2])] = dec(sp[3])
+        elif k == "set":
+            w = sp[1]; r = tuple(sp[2]); setattr(lay, w, mkkind(aa, r, sp[3] if len(sp) > 3 else "reg", 1)); cur[w] = r
+        elif k == "derive":
+            how = sp[1]
+            arr = {"copy": lambda: arr.copy(), "deepcopy": lambda: copy.deepcopy(arr), "view": lambda: arr[:],
+                   "native": lambda: arr.native, "slim": lambda: arr.slim, "plus0": lambda: arr + 0}[how]()
+        elif k == "regop":
+            w = sp[1]; obj = getattr(lay, w)
+            if cur[w] is None: continue
+            o, cq_ = region_op(obj, cur[w], sp[2], aa, bad); out.append(o); coqs.append(cq_)
+            state_ok(k)
+        elif k == "props":
+            w = sp[1]
+            if cur[w] is None: continue
+            o, cq_ = region_props(aa, getattr(lay, w), cur[w], 1, (0, 1), bad); out.append(o); coqs.append(cq_)
+        else: raise ValueError(k)
+    coqs.append(f"KSlice {carr([[lab(x) for x in vals]])} {creg((0, 1, 0, n))} {carr([[lab(x) for x in np.asarray(arr.native)]])}")
+    return result(coqs, out, bad, "l1sess")
+
+# ----------------------------------------------------------------------------------------------- pattern
+class Pattern:
+    """stand-in for PyAutoCTI's charge injection pattern: an object with a list of regions (and other attributes)"""
+    def __init__(self, regions, tag): self.regions = regions; self.tag = tag
+def run_pattern(aa, inp):
+    from autoarray.layout import layout_util
+    bad = []
+    regs = [mkkind(aa, r, k) for r, k in zip(inp["regions"], inp["kinds"])]
+    pat = Pattern(list(regs), ["tag", len(regs)]); held = pat.regions
+    s = mkkind(aa, inp["s"], inp.get("sk"), 1); c = tuple(inp["c"])
+    fp = [fingerprint(x) for x in regs] + [fingerprint(s)]
+    f = layout_util.rotate_pattern_ci_via_roe_corner_from
+    outs = []; coqs = []
+    for rep in range(int(inp.get("reps", 1))):            # the same pattern object handed in again
+        o = call_res(f, pat, s, c) if inp.get("pos") else call_res(f, pattern_ci=pat, shape_native=s, roe_corner=c)
+        if o[0] == "ok":
+            new = o[1]
+            if new is pat: bad.append("the pattern handed in was returned")
+            if new.regions is held: bad.append("the result shares its list of regions with the pattern handed in")
+            if getattr(new, "tag", None) != ["tag", len(regs)]: bad.append("the other attributes of the pattern were not carried over")
+            o = ("ok", [regt(x) for x in new.regions])
+        outs.append(o)
+        coqs.append(f"KRotPattern {clist([copt(r, creg) for r in inp['regions']])} {creg(inp['s'])} {creg(c)} "
+                    f"{cres(o, lambda v: clist([copt(x, creg) for x in v]))}")
+        if pat.regions is not held or len(held) != len(regs) or any(a is not b for a, b in zip(held, regs)):
+            bad.append("the list of regions of the pattern handed in was modified")
+        if fp != [fingerprint(x) for x in regs] + [fingerprint(s)]: bad.append("an argument of the pattern rotation was modified")
+    return result(coqs, outs, bad, "pattern")
 
 SUBNAME = {"front1": "front_region_from", "trail1": "trailing_region_from", "parfront": "parallel_front_region_from",
            "serfront": "serial_front_region_from", "partrail": "parallel_trailing_region_from",
@@ -752,3 +1041,196 @@ def gen_histories(tier, rng):
             else: steps.append([k])
         inp["steps"] = steps
         yield inp
+
+# ----------------------------------------------------------------------------------------------- phase 3: input kinds
+# The same operations with the arguments handed over in other REPRESENTATIONS (lists, numpy scalars / arrays, tuple
+# subclasses, Region objects, user subclasses of Region / Layout / Array classes, regions wrapping regions), positional
+# instead of keyword passing, defaults left out; arrays of other dtypes (bool, int8, uint8, int64 beyond 2^53, float16/32,
+# complex); sibling entry points (Layout1D, rotate_pattern_ci_via_roe_corner_from, the binned overscans, the read-only
+# attributes of the regions).  Mutable arguments are fingerprinted around every call.
+PATS_K = [0, 1, 3, 6, 8, 11, 12]
+PRESERVING = ["copy", "copy.copy", "deepcopy", "view", "with_new_array", "native", "ctor"]
+BIGS = [2 ** 53 + 1, -(2 ** 53 + 1), 2 ** 62 + 1, 2 ** 63 - 1, -2 ** 63, 2 ** 53, 10 ** 18 + 7]
+def val_for(rng, dtype):
+    if dtype == "bool": return rng.randint(0, 1)
+    if dtype == "uint8": return rng.randint(0, 99)
+    if dtype in ("int", "int8", "bigint"): return rng.randint(-99, 99)
+    if dtype in ("float32", "float16"): return rng.choice([rng.randint(-99, 99), "0.5", "1.5", "-2.5", "inf", "-inf", "nan", "-0.0"])
+    if dtype == "complex": return rng.choice([rng.randint(-9, 9), "1+2j", "-3j", "0.5-1j", "1.5", "-0.25+1e+300j"])
+    return rng.choice([rng.randint(-99, 99), enc(dec(rng.choice(SPECIALS)))])
+def vals_for(rng, h, w, dtype):
+    if dtype == "bool": return [[rng.randint(0, 1) for _ in range(w)] for _ in range(h)]
+    if dtype == "uint8": return [[rng.choice([0, 1, 2, 200, 255, rng.randint(0, 255)]) for _ in range(w)] for _ in range(h)]
+    if dtype == "int8": return [[rng.choice([0, -1, 127, -128, rng.randint(-128, 127)]) for _ in range(w)] for _ in range(h)]
+    if dtype == "bigint": return [[rng.choice(BIGS + [rng.randint(-9, 9)]) for _ in range(w)] for _ in range(h)]
+    if dtype == "int": return [[rng.randint(-3, 3) for _ in range(w)] for _ in range(h)]
+    if dtype in ("float32", "float16"):
+        return [[rng.choice([rng.randint(-9, 9), "0.5", "0.1", "1e-08", "2049.0", "16777217.0", "nan", "inf", "-0.0", "65504.0"]) for _ in range(w)] for _ in range(h)]
+    if dtype == "complex": return [[rng.choice([rng.randint(-9, 9), "1+2j", "1-2j", "-3j", "3j", "0.5-1j", "1e-300+1j", "nan"]) for _ in range(w)] for _ in range(h)]
+    return rand_vals(rng, h, w, 2)
+
+def gen_kinds(tier, rng):
+    big = tier == "thorough"; rep = 4 if big else 1
+    i = 0
+    # ---- single calls: every representation of the region / shape / pixels arguments, keyword and positional
+    for _ in range(rep):
+        for rk in RKINDS:
+            for c in CORNERS:
+                for via in ("util", "rotated_from_roe_corner", "new_rotated_from"):
+                    i += 1
+                    h, w = rng.randint(1, 6), rng.randint(1, 6)
+                    yield {"op": "rotregion", "r": rand_region(rng, h, w), "s": [h, w], "c": list(c), "via": via, "rk": rk,
+                           "sk": pick(TKINDS, i), "pos": (i // 3) % 2 == 0, "layk": "sub" if (i // 6) % 2 else None}
+        for ok in RKINDS:
+            for ek in RKINDS:
+                i += 1
+                h, w = rng.randint(1, 6), rng.randint(1, 6)
+                yield {"op": "extract", "o": rand_region(rng, h, w), "e": rand_region(rng, h, w), "ok": ok, "ek": ek, "shape": [h, w],
+                       "via": pick(["util", "parallel_overscan", "serial_prescan", "serial_overscan"], i), "pos": i % 3 == 0,
+                       "layk": "sub" if i % 2 else None}
+        for selfk in ("reg", "sub", "nested", "subnested", "reglist", "regarr", "np64"):
+            for pk in TKINDS:
+                for dim in (1, 2, 2):
+                    i += 1
+                    h, w = rng.randint(1, 6), rng.randint(1, 6)
+                    d = rand_subop(rng, dim, max(h, w)); r = rand_region(rng, h, w)
+                    sk = selfk if selfk != "np64" else "reg"
+                    d.update({"s": r[2:] if dim == 1 else r, "selfk": sk, "pk": pk, "shk": pick(TKINDS, i + 3), "pos": i % 2 == 0})
+                    yield d
+        # defaults left out: pixels=(0, 1) of the trailing / towards-roe regions
+        for r in regions_2d(2, 3):
+            for op in ("partrail", "sertrail", "serroe"):
+                d = {"op": op, "s": list(r), "p": [0, 1], "dflt": True, "selfk": pick(["reg", "sub", "nested"], i)}; i += 1
+                if op == "serroe": d["sh"] = [4, 5]
+                yield d
+    # ---- directed: regions sticking out of the frame (a flipped coordinate becomes negative: RegionException), both
+    #      pixels and pixels_from_end given (pixels_from_end wins), in every representation
+    for n in range(240 if big else 60):
+        h, w = rng.randint(1, 5), rng.randint(1, 5)
+        r = rand_region(rng, h, w); r[1 if n % 2 else 3] += rng.randint(1, 3)
+        yield {"op": "rotregion", "r": r, "s": [h, w], "c": list(CORNERS[n % 4]), "via": pick(["util", "rotated_from_roe_corner", "new_rotated_from"], n // 4),
+               "rk": pick(RKINDS, n), "sk": pick(TKINDS, n // 3), "pos": n % 5 == 0}
+    for n in range(240 if big else 80):
+        h, w = rng.randint(1, 6), rng.randint(1, 6); r = rand_region(rng, h, w)
+        op = pick(["parfront", "serfront", "front1"], n)
+        yield {"op": op, "s": r[2:] if op == "front1" else r, "p": [rng.randint(-1, 3), rng.randint(0, 4)], "e": rng.randint(-1, 4),
+               "selfk": pick(["reg", "sub", "nested"], n // 3), "pk": pick(TKINDS, n // 2), "pos": n % 2 == 0}
+    # ---- histories on ONE array of another dtype / of a user subclass
+    dts = ["bool", "float32", "float16", "complex", "int8", "uint8", "bigint", "int", None]
+    for (h, w) in [(2, 3), (3, 2), (1, 3), (3, 1), (1, 1)] + ([(4, 3), (2, 5)] if big else []):
+        regs = regions_2d(h, w)
+        for dt in dts:
+            for kind in ("array2d", "nd", "no_mask.native"):
+                for sub in (False, True):
+                    if kind == "no_mask.native" and dt in ("complex", "bigint", "bool"): continue   # stored slim as float64
+                    i += 1
+                    if not big and kind == "no_mask.native" and i % 3: continue
+                    r = list(pick(regs, 7 * i)); r2 = list(pick(regs, 3 * i + 1)); ci = i % 4
+                    c2 = list(CORNERS[(ci + 1 + i % 3) % 4])
+                    pats = ahist_patterns(kind, r, r2, c2, val_for(rng, dt), val_for(rng, dt))
+                    exact = dt in ("complex", "bigint")            # extraction / arithmetic convert to float64
+                    for pi in ([pick(PATS_K, i), pick(PATS_K, i + 3)] if not big else PATS_K):
+                        steps = copy.deepcopy(pats[pi])
+                        if exact and kind != "nd":
+                            for st in steps:
+                                if st[0] == "slice": st[2] = "direct"
+                                if st[0] == "derive" and st[1] not in PRESERVING: st[1] = "copy"
+                        if kind == "no_mask.native":
+                            for st in steps:
+                                if st[0] == "derive" and st[1] == "native": st[1] = "copy"
+                        yield {"op": "ahist", "kind": kind, "m": vals_for(rng, h, w, dt), "c": list(CORNERS[ci]), "steps": steps,
+                               "dtype": dt, "sub": sub, "ps": [2.0, 0.5] if i % 2 else None}
+    derive_a = ["copy", "copy.copy", "deepcopy", "plus0", "times1", "view", "with_new_array", "native", "slim.native", "ctor", "apply_mask"]
+    derive_n = ["copy", "view", "fortran", "window", "tt"]
+    for n in range(1200 if big else 110):
+        h, w = rng.randint(1, 5), rng.randint(1, 5)
+        kind = rng.choice(["array2d", "array2d", "nd"]); dt = rng.choice(dts[:-1]); exact = dt in ("complex", "bigint")
+        inp = {"op": "ahist", "kind": kind, "m": vals_for(rng, h, w, dt), "c": list(rng.choice(CORNERS)), "dtype": dt,
+               "sub": rng.random() < 0.5, "ps": [0.5, 3.0] if rng.random() < 0.5 else None}
+        steps = []; lastshape = None
+        for _ in range(rng.randint(4, 9)):
+            k = rng.choice(["read", "read", "write", "write", "edit", "last", "corner", "derive", "slice"])
+            if k == "read": steps.append(["read", rng.choice(["prop", "layout", "util"])]); lastshape = (h, w)
+            elif k == "write": steps.append(["write", rand_region(rng, h, w), val_for(rng, dt), rng.choice(["region", "direct", "where"])])
+            elif k == "edit" and lastshape: steps.append(["edit", rand_region(rng, *lastshape), val_for(rng, dt)])
+            elif k == "last" and lastshape: steps.append(["last"])
+            elif k == "corner": steps.append(["corner", list(rng.choice(CORNERS))])
+            elif k == "derive": steps.append(["derive", rng.choice(derive_n if kind == "nd" else (PRESERVING if exact else derive_a))])
+            elif k == "slice":
+                r = rand_region(rng, h, w)
+                steps.append(["slice", r, "direct" if exact else rng.choice(["po", "so", "direct"])]); lastshape = (r[1] - r[0], r[3] - r[2])
+        steps.append(["read", rng.choice(["prop", "layout", "util"])])
+        inp["steps"] = steps
+        yield inp
+    # ---- one Layout2D (or user subclass) built from other representations, positional, default corner; binned overscans
+    SLK = ["tuple", "nt", "np64", "reg", "sub", "nested", "subnested", "list", "arr", "reglist", "regarr", "np32"]
+    for n in range(900 if big else 140):
+        h, w = rng.randint(1, 5), rng.randint(1, 6)
+        regions = [rand_region(rng, h, w) if rng.random() < 0.85 else None for _ in range(3)]
+        c = list(rng.choice(CORNERS)) if n % 4 else [1, 0]
+        inp = {"op": "lsess", "shape": [h, w], "c": c, "regions": regions, "m": rand_vals(rng, h, w, n % 2),
+               "store_native": rng.random() < 0.5, "slotk": [pick(SLK, n + 5 * j) for j in range(3)], "layk": "sub" if n % 2 else None,
+               "shk": pick(TKINDS, n // 2), "arrk": "sub" if (n // 2) % 2 else None, "ps": [2.0, 0.5] if n % 3 else None,
+               "hdr": n % 3 != 1, "pos": n % 5 == 0, "dflt": n % 4 == 0}
+        steps = []
+        for _ in range(rng.randint(5, 10)):
+            k = rng.choice(["rot", "into_rot", "classrot", "ext", "into_ext", "set", "slice", "slice", "bin", "bin", "eper", "orient",
+                            "write", "utilrot", "regop", "corner"])
+            if k in ("rot", "into_rot", "classrot"): steps.append([k, list(rng.choice(CORNERS))])
+            elif k in ("ext", "into_ext"): steps.append([k, rand_region(rng, h, w)] + (["region"] if rng.random() < 0.3 else []))
+            elif k == "set": steps.append(["set", rng.randint(0, 2), rand_region(rng, h, w)])
+            elif k in ("slice", "bin"): steps.append([k, rng.choice([0, 2])])
+            elif k == "eper": steps.append(["eper"])
+            elif k == "orient": steps.append(["orient", rng.choice(["nd", "arr"])])
+            elif k == "write": steps.append(["write", rand_region(rng, h, w), rng.randint(-99, 99)])
+            elif k == "utilrot": steps.append(["utilrot", rng.randint(0, 2), list(rng.choice(CORNERS))])
+            elif k == "corner": steps.append(["corner", list(rng.choice(CORNERS))]); steps.append(["derive", rng.choice(["copy", "deepcopy"])])
+            elif k == "regop":
+                d = rand_subop(rng, 2, max(h, w)); d.update({"pk": rng.choice(TKINDS), "shk": rng.choice(TKINDS), "pos": rng.random() < 0.5})
+                steps.append(["regop", rng.randint(0, 2), d])
+        inp["steps"] = steps
+        yield inp
+    # ---- one Region object of every representation: attributes before / after reg.region is re-assigned
+    for n in range(900 if big else 90):
+        dim = 1 if n % 3 == 0 else 2
+        h, w = rng.randint(1, 6), rng.randint(1, 7)
+        cur = rand_region(rng, h, w); r2 = rand_region(rng, h, w)
+        cut = (lambda r: r[2:]) if dim == 1 else (lambda r: r)
+        a = rand_subop(rng, dim, max(h, w)); a.update({"pk": pick(TKINDS, n), "shk": pick(TKINDS, n + 2), "pos": n % 2 == 0})
+        p = [rng.randint(-1, 3), rng.randint(0, 4)]
+        yield {"op": "rsess", "dim": dim, "r": cut(cur), "m": rand_vals(rng, h, w, n % 3),
+               "selfk": pick(["reg", "sub", "nested", "subnested", "reglist", "regarr"], n),
+               "steps": [["props", p], ["call", a], ["slice"], ["props", p], ["setregion", cut(r2)], ["props", p], ["call", a], ["slice"],
+                         ["derive", pick(["copy", "deepcopy", "pickle", "rebuild", "wrap"], n // 2)], ["props", p], ["call", a], ["slice"],
+                         ["setregion", cut(cur)], ["props", p], ["call", a], ["into", a], ["props", p], ["state"]]}
+    # ---- one Layout1D reused on one Array1D
+    K1 = ["tuple", "nt", "np64", "reg", "sub", "nested", "np32"]
+    for n in range(800 if big else 120):
+        L = rng.randint(1, 7)
+        def r1():
+            a = rng.randint(0, L - 1); return [a, rng.randint(a + 1, L)]
+        dt = pick([None, None, "int", "float32", "bool", "uint8"], n)
+        inp = {"op": "l1sess", "m": vals_for(rng, 1, L, dt)[0] if dt else rand_vals(rng, 1, L, n % 3)[0], "dtype": dt,
+               "pre": r1() if n % 3 else None, "ov": r1(), "prek": pick(K1, n), "ovk": pick(K1, n // 2), "sub": n % 2 == 1,
+               "hdr": n % 3 != 2, "ps": pick([1.0, 0.25, 3.0], n), "pos": n % 4 == 0}
+        steps = [["ext"]]
+        for _ in range(rng.randint(3, 8)):
+            k = rng.choice(["ext", "ext", "write", "edit", "set", "derive", "regop", "props"])
+            if k == "ext": steps.append(["ext"])
+            elif k == "write": steps.append(["write"] + r1() + [val_for(rng, dt)])
+            elif k == "edit": steps.append(["edit", 0, 1, val_for(rng, dt)])
+            elif k == "set": steps.append(["set", rng.choice(["overscan", "overscan", "prescan"]), r1(), rng.choice(["reg", "sub", "nested"])])
+            elif k == "derive": steps.append(["derive", rng.choice(["copy", "deepcopy", "view", "native", "slim", "plus0"])])
+            elif k == "regop": steps.append(["regop", rng.choice(["overscan", "prescan"]), rand_subop(rng, 1, L)])
+            elif k == "props": steps.append(["props", rng.choice(["overscan", "prescan"])])
+        steps.append(["ext"])
+        inp["steps"] = steps
+        yield inp
+    # ---- a pattern (list of regions) rotated
+    for n in range(800 if big else 120):
+        h, w = rng.randint(1, 6), rng.randint(1, 6)
+        k = rng.choice([0, 1, 1, 2, 3, 5])
+        regs = [rand_region(rng, h, w) for _ in range(k)]
+        if n % 10 == 0 and regs: regs[-1] = [0, h + 1, 0, 1]          # sticks out of the frame: RegionException for flipped corners
+        yield {"op": "pattern", "regions": regs, "kinds": [rng.choice(RKINDS) for _ in regs], "s": [h, w], "sk": pick(TKINDS, n),
+               "c": list(rng.choice(CORNERS + ([(2, 0)] if n % 17 == 0 else []))), "pos": n % 3 == 0, "reps": 1 + n % 2}
